@@ -214,6 +214,10 @@ OPS = {
                                  M("pair", lambda s: (sec(s, "Potential-Form")[1].append(["late(r, a)", "a*(r + 1"]), setv(s, "Pair", "Al-Al", "as.buck 1000.0 0.3 32.0 >100 late 1")))],
     "label-not-ascii": [M("pair", lambda s: sec(s, "Potential-Form")[1].append(["h\u00e9(r)", "r"])), M("eam", lambda s: s.append(["Table-Form:\u00e9", [["x", "0.0 1.0 2.0 3.0 4.0"], ["y", "0.0 1.0 4.0 9.0 16.0"]]]))],
     "parameter-overflow": [M("pair", lambda s: setv(s, "Pair", "Al-Al", "as.constant 1e400")), M("pair", lambda s: setv(s, "Pair", "Al-Al", "as.constant " + "9" * 401)),
+                           # ... the start of a range is a number of the definition like its parameters
+                           M("pair", lambda s: setv(s, "Pair", "Al-Al", ">=1e400 as.buck 1000.0 0.3 32.0")),
+                           M("pair", lambda s: setv(s, "Pair", "Al-Al", "spline(as.zbl 13 13 >=0.8 exp_spline >=1e400 as.buck 1000.0 0.3 32.0)")),
+                           M("eam", lambda s: setv(s, "EAM-Density", "Cu", "as.bornmayer 5.0 0.7 >" + "9" * 401 + " as.zero")),
                            M("eam", lambda s: setv(s, "EAM-Embed", "Al", "as.polynomial 0 -1e999"))],
     "trans-second-multi-range": [M("pair", lambda s: setv(s, "Pair", "Fe-Al", "trans(as.lj 0.2 2.5, as.constant 1 >2 as.constant 3)"))],
     "spline-endpoint-unevaluable": [M("pair", lambda s: setv(s, "Pair", "Cu-Cu", "spline(>-1 as.zbl 29 29 >=0 exp_spline >=1.4 as.buck 1000.0 0.3 32.0)")),
@@ -279,7 +283,9 @@ OPS = {
     "species-nonnumeric-mass": [M("eam", lambda s: setv(s, "Species", "Cu.atomic_mass", "abc")), M("eam", lambda s: setv(s, "Species", "Al.lattice_constant", "four"))],
     "species-float-number": [M("eam", lambda s: setv(s, "Species", "Cu.atomic_number", "29.0"))],
     "formula-unparsable": [M("pair", lambda s: setv(s, "Potential-Form", "f(r,a)", "{ a*r + + * 1 }")), M("eam", lambda s: setv(s, "Potential-Form", "f(r,a)", "if (r > 1) { a*r } else { a*(r + 1 }")),
-                           M("pair", lambda s: setv(s, "Potential-Form", "f(r,a)", "a*r + + * 1")), M("eam", lambda s: setv(s, "Potential-Form", "f(r,a)", "a*(r + 1"))],
+                           M("pair", lambda s: setv(s, "Potential-Form", "f(r,a)", "a*r + + * 1")), M("eam", lambda s: setv(s, "Potential-Form", "f(r,a)", "a*(r + 1")),
+                           # characters the expression library cannot hold: a minus sign pasted from a paper (U+2212), a no-break space
+                           M("pair", lambda s: setv(s, "Potential-Form", "f(r,a)", "a*exp(\u2212r)")), M("eam", lambda s: setv(s, "Potential-Form", "f(r,a)", "a *\u00a0r"))],
     "formula-undefined-symbol": [M("pair", lambda s: setv(s, "Potential-Form", "f(r,a)", "if (r > 1) { a*r } else { b }")), M("eam", lambda s: setv(s, "Potential-Form", "f(r,a)", "{ a*r + nosuch(r) }")),
                                  M("pair", lambda s: setv(s, "Potential-Form", "f(r,a)", "a*r + b")), M("pair", lambda s: setv(s, "Potential-Form", "f(r,a)", "a*r + nosuch(r)"))],
     "formula-call-wrong-arity": [M("pair", lambda s: setv(s, "Potential-Form", "g(r, a, b)", "{ f(r, a, b) * b }")),
